@@ -40,6 +40,12 @@ SPECIAL = [
     ('handler_args', '\\newtheorem{t}{\\zzthm Title}\\hspace{\\zzlen} \\phantom{\\zzph} A \\hphantom{\\zzhp}B',
      ['\\zzthm', '\\zzlen', '\\zzph', '\\zzhp']),
     ('handler_args_then_text', '\\phantom{\\zza} \\zzb \\zza \\section{\\zzc} \\zzc', ['\\zza', '\\zzb', '\\zzc']),
+    ('pkg_requires', '\\usepackage[final]{graphicx}\\usepackage{pgfplots}A \\tikzset{x} \\usetikzlibrary{y} '
+                     '\\pgfplotsset{z} \\includegraphics{f} \\begin{tikzpicture}\\end{tikzpicture} B', []),
+    ('cls_opts_requires', '\\documentclass[a4paper]{article}\\usepackage{graphicx}\\usepackage{pgfplots}A '
+                          '\\tikzset{x} \\begin{tikzpicture}\\end{tikzpicture} \\zzq B', ['\\zzq']),
+    ('glossaries_extra_requires', '\\usepackage{glossaries-extra}A \\newabbreviation{a}{b}{c} \\glsdisp{a}{T} '
+                                  '\\zzq', ['\\zzq']),
     ('env_in_math', '\\[ \\begin{zzmat} a \\end{zzmat} \\] \\begin{zzmat}b\\end{zzmat}', ['zzmat']),
 ]
 OPTSETS = [{'pack': '*'}, {'pack': ''}, {'pack': '*', 'repl': ['zzd & zzq', 'zza zzb & x', 'zzenv & E'],
